@@ -142,14 +142,21 @@ func isDistributive(expr *parser.Expr) bool {
 		case "histogram_quantile", "vector", "absent", "absent_over_time", "sort", "sort_desc":
 			return false
 		}
+		hasSeriesArg := false
 		for _, arg := range aggr.Args {
 			switch arg.Type() {
 			case parser.ValueTypeVector, parser.ValueTypeMatrix:
+				hasSeriesArg = true
 			default:
 				if !isConstant(arg) {
 					return false
 				}
 			}
+		}
+		// A function without an input series (hour(), day_of_week(), ...) yields the
+		// same series in every engine; evaluating it remotely would duplicate it.
+		if !hasSeriesArg {
+			return false
 		}
 	}
 
